@@ -54,7 +54,8 @@ def edit_or_revert(r, p, past, kinds=None, p_revert=0.25):
 
 
 def history_c01(r, quick):
-    p0 = vprogs.random_prog(r, nmem=r.choice([2, 3, 3, 4]), nplain=r.choice([1, 2]), nvar=2, hidden_p=0.2)
+    p0 = vprogs.random_prog(r, nmem=r.choice([2, 3, 3, 4]), nplain=r.choice([1, 2]), nvar=2, hidden_p=0.2,
+                            init_p=0.25, twins_p=0.25, late_p=0.25)
     if r.random() < 0.3:
         cands = [n for n in p0["nodes"] if n["kind"] == "mem" and n["name"] != "m1"]
         if cands:
@@ -86,7 +87,7 @@ def history_c01(r, quick):
 
 def history_c03(r, quick):
     p0 = vprogs.random_prog(r, nmem=r.choice([2, 3, 4]), nplain=r.choice([1, 2]), nvar=2, hidden_p=0.0,
-                            forms=("bare", "bare", "attr", "alias", "wrapped"))
+                            forms=("bare", "bare", "attr", "alias", "wrapped", "wrapped2"), init_p=0.4, twins_p=0.5, late_p=0.5)
     names = [n["name"] for n in p0["nodes"] if n["kind"] in ("mem", "plain")]
     mems = [n for n in names if n.startswith("m")]
     steps = []
@@ -107,7 +108,7 @@ def history_c03(r, quick):
 
 def history_c13(r, quick):
     p0 = vprogs.random_prog(r, nmem=r.choice([2, 3]), nplain=r.choice([1, 2]), nvar=2, hidden_p=0.0,
-                            forms=("bare", "attr", "alias", "alias"))
+                            forms=("bare", "attr", "alias", "alias"), init_p=0.2, twins_p=0.2, late_p=0.2)
     # a reference to a symbol that does not exist yet
     if r.random() < 0.5:
         r.choice([n for n in p0["nodes"] if n["kind"] in ("mem", "plain")])["refs"].append({"to": "u1", "form": "bare"})
@@ -129,7 +130,8 @@ def history_c13(r, quick):
             p["nodes"].append(n)
         elif x < 0.8:
             # swap a function between memento and plain (and back)
-            cands = [n for n in p["nodes"] if n["kind"] in ("mem", "plain") and n["name"] != "m1"]
+            cands = [n for n in p["nodes"] if n["kind"] in ("mem", "plain") and n["name"] != "m1" and not n.get("cls")
+                     and n.get("where") != "init"]
             n = r.choice(cands)
             n["kind"] = "plain" if n["kind"] == "mem" else "mem"
             n["explicit"] = None
@@ -261,6 +263,76 @@ def history_aba(r, prop):
     return GEN[prop](r, True)
 
 
+DIRECTED = ["slot:body", "slot:const", "slot:dflt", "slot:kwd", "slot:nested", "slot:setc", "slot:tup", "var", "var_mutate",
+            "addref", "delref", "init_helper", "twin_sm", "late_var", "late_var_mutate"]
+
+
+def history_directed(r, prop, kind, inproc):
+    """One edit of a given kind to something m1 (transitively) uses, delivered in-process or by a new process,
+    with m1 asked before and after: every kind of edit is exercised in every run, not only when the dice say so."""
+    feat = {"init_helper": {"init_p": 1.0}, "twin_sm": {"twins_p": 1.0}, "late_var": {"late_p": 1.0},
+            "late_var_mutate": {"late_p": 1.0}}.get(kind, {})
+    for _ in range(200):
+        p0 = vprogs.random_prog(r, nmem=r.choice([2, 3]), nplain=r.choice([1, 2]), nvar=2, hidden_p=0.0, **feat)
+        p = copy.deepcopy(p0)
+        fns = [n for n in p["nodes"] if vprogs.is_fn(n) and (n["name"] == "m1" or reaches(p, "m1", n["name"]))]
+        vars_ = [n for n in p["nodes"] if n["kind"] == "var" and any(q["to"] == n["name"] for f in fns for q in f["refs"])]
+        ed = None
+        if kind.startswith("slot:"):
+            n = r.choice(fns)
+            n["slots"][kind[5:]] += 1
+            ed = {"edit": "slot", "name": n["name"], "slot": kind[5:]}
+        elif kind == "init_helper":
+            c = [n for n in fns if n.get("where") == "init"]
+            if c:
+                n = c[0]
+                n["slots"][r.choice(vprogs.SLOTS)] += 1
+                ed = {"edit": "init_helper", "name": n["name"]}
+        elif kind == "twin_sm":
+            c = [n for n in fns if n.get("cls")]
+            if c:
+                n = r.choice(c)
+                n["slots"][r.choice(vprogs.SLOTS)] += 1
+                ed = {"edit": "twin_sm", "name": n["name"]}
+        elif kind in ("var", "var_mutate", "late_var", "late_var_mutate"):
+            c = [v for v in vars_ if bool(v.get("late")) == kind.startswith("late")]
+            if kind.endswith("mutate"):
+                c = [v for v in c if isinstance(v["val"], (list, dict))]
+            if c:
+                n = r.choice(c)
+                if kind.endswith("mutate"):
+                    if isinstance(n["val"], list):
+                        n["val"].append(len(n["val"]) + 10)
+                    else:
+                        n["val"]["k%d" % len(n["val"])] = 1
+                    ed = {"edit": "var_mutate", "name": n["name"]}
+                else:
+                    ed = vprogs.random_edit(r, {"nodes": [n]}, ["var"])
+        elif kind in ("addref", "delref"):
+            ed = vprogs.random_edit(r, {"nodes": fns + [v for v in p["nodes"] if v["kind"] == "var"]}, [kind])
+            if ed["edit"] != kind:
+                ed = None
+            else:
+                n = vprogs.node(p, ed["name"])
+        if ed is None:
+            continue
+        n = vprogs.node(p, ed["name"])
+        if n["kind"] == "mem" and n.get("explicit") is not None:
+            continue
+        ask = (lambda: {"do": "call", "name": "m1"}) if prop == "C01" else (lambda: {"do": "query", "name": "m1", "truth": True})
+        steps = [{"do": "proc", "hashseed": "0"}, ask(), {"do": "set", "node": copy.deepcopy(n), "why": dict(ed, directed=kind)}]
+        if inproc:
+            how = "reexec" if n["kind"] != "var" else ("mutate" if ed["edit"] == "var_mutate" else "setvar")
+            if how == "reexec" and r.random() < 0.25:
+                how = "reload"
+            steps.append({"do": "deliver", "how": how, "name": n["name"]})
+        else:
+            steps.append({"do": "proc", "hashseed": "0"})
+        steps.append(ask())
+        return {"prog": p0, "steps": steps, "directed": kind}
+    return GEN[prop](r, True)
+
+
 def reaches_alias(p, src):
     """does src (transitively) call through an alias name?"""
     seen, todo = set(), [src]
@@ -279,7 +351,7 @@ def reaches_alias(p, src):
 
 
 GEN = {"C01": history_c01, "C03": history_c03, "C13": history_c13}
-NJOBS = {"C01": (48, 1200), "C03": (24, 300), "C13": (48, 1500)}
+NJOBS = {"C01": (36, 1200), "C03": (24, 300), "C13": (36, 1500)}
 
 
 def merge_truth(events):
@@ -323,6 +395,12 @@ def run(prop, tier):
         n = NJOBS[prop][0 if quick else 1]
         jobs = [history_alias(r, prop, collide=(i % 12 == 11)) if prop in ("C01", "C13") and i % 6 == 5 else
                 history_aba(r, prop) if prop in ("C01", "C13") and i % 6 == 2 else GEN[prop](r, quick) for i in range(n)]
+        if prop in ("C01", "C13"):
+            for rep_ in range(1 if quick else 12):
+                for kind in DIRECTED:
+                    jobs.append(history_directed(r, prop, kind, inproc=True))
+                    if prop == "C01":
+                        jobs.append(history_directed(r, prop, kind, inproc=False))
         traces = common.run_jobs("ver_worker.py", jobs, wd, timeout=3000)
         common.tick("executed %d histories" % len(traces))
         payload = [{"cfg": {"prop": prop}, "ev": merge_truth(t["ev"])} for t in traces]
